@@ -13,7 +13,7 @@ LEVEL_TEXT = ("Grid of idle_timeout / D and idle_timeout / T ratios in {0.1 .. 1
 LEVEL_NOTE = "In-process stack with SQLite persistence; restart = emulated process death (fresh runtime + server over the same file). Trusted: virtual clock, shims."
 DESIGN_REF = "§5 C14"
 RULE = "case = (timer kind, D or T, idle_timeout, restart instant); distinct = hash of the scenario; non-trivial = a release or restart happened while the timer was pending"
-REQUIRED_REACH = ["scenario", "timer_waiter_timeout", "timer_retry_delay", "released_while_timer_pending", "restart_while_timer_pending", "finished", "timer_waiter_chain", "timer_timeout_then_restart", "timer_fired_timeout_then_reload", "timer_shorter_than_a_store_write"]
+REQUIRED_REACH = ["scenario", "timer_waiter_timeout", "timer_retry_delay", "released_while_timer_pending", "restart_while_timer_pending", "finished", "timer_waiter_chain", "timer_timeout_then_restart", "timer_fired_timeout_then_reload", "timer_shorter_than_a_store_write", "restart_with_another_unfinished_run"]
 ASSUMPTIONS = []
 
 
@@ -27,7 +27,19 @@ def gen_case(seed):
     from vf import idle_cases as ic
 
     rnd = random.Random(seed)
-    kind = rnd.choice(["waiter_timeout", "retry_delay", "waiter_chain", "timeout_then_restart", "fired_timeout_then_reload", "short_timer_slow_store"])
+    kind = rnd.choice(["waiter_timeout", "retry_delay", "waiter_chain", "timeout_then_restart", "fired_timeout_then_reload", "short_timer_slow_store", "two_busy_runs_at_restart"])
+    if kind == "two_busy_runs_at_restart":
+        # two runs of the workflow are both busy handling a waiter timeout that has just fired when the server restarts; afterwards
+        # each asks its human, and only one of the humans ever answers: that run must finish whatever the other one does
+        dur0 = rnd.choice([1.0, 2.0])
+        busy = rnd.choice([2.0, 4.0])
+        spec, keys = ic.gen_program(rnd, n=1, escalate=dur0, post_wait_sleep=busy)
+        for it in spec["steps"][0]["acts"][0]["items"]:
+            it["lat"] = [0]
+        spec["sched_seed"] = seed
+        t_restart = dur0 + busy * rnd.choice([0.25, 0.5, 0.75])
+        return {"seed": seed, "kind": "fired_timeout_then_reload", "variant": "two_busy_runs_at_restart", "dur": dur0, "I": 1000.0, "spec": spec, "keys": keys,
+                "restart": "at", "restart_at": t_restart, "restart_frac": 0.5, "answer_at": t_restart + busy + dur0 + 5.0, "blocker": rnd.choice(["before", "after"])}
     dur = rnd.choice([2.0, 5.0, 10.0])
     if kind == "short_timer_slow_store":
         # a timer shorter than one store write (or zero): it falls due while the control loop is still busy persisting the tick that
@@ -101,13 +113,23 @@ def run_one(case, acc):
     if case["restart"] == "after_timeout":
         # items sleep <= 1 s before waiting; the timeout fires at <= 1 + dur (+ latencies); restart inside the busy stretch after it
         restarts = [1.0 + dur + case["busy"] * case["restart_frac"]]
+    if case["restart"] == "at":
+        restarts = [case["restart_at"]]
     if case["restart"] == "during":
         t0 = 1.0 if kind == "waiter_timeout" else 0.25
         restarts = [t0 + 0.5 + dur * case["restart_frac"] * 0.5]
     if case.get("variant") == "short_timer_slow_store":
         acc.hit("timer_shorter_than_a_store_write")
+    blocker = case.get("blocker")
+    if blocker:
+        acc.hit("restart_with_another_unfinished_run")
+    elif restarts and kind in ("retry_delay", "fired_timeout_then_reload") and random.Random(case["seed"] ^ 0xB10C).random() < 0.5:
+        # another run of the same workflow is in flight at the restart and never finishes (its human never answers): resuming the
+        # runs after the restart must not make one wait for the other
+        blocker = random.Random(case["seed"] ^ 0xB10D).choice(["before", "after"])
+        acc.hit("restart_with_another_unfinished_run")
     scn = {"spec": case["spec"], "idle_timeout": I, "sends": sends, "restarts": restarts, "store": "sqlite", "end": 100.0 + 6 * dur,
-           "store_latency": case.get("store_latency")}
+           "store_latency": case.get("store_latency"), "blocker": blocker}
     obs, cs = ic.run_scenario(scn)
     acc.case()
     acc.hit("scenario")
@@ -129,7 +151,7 @@ def run_one(case, acc):
     else:
         lost_on = "restart" if restarts else ("idle_release" if pending_release else "none")
         acc.violation({"mech": "run_stays_running_timer_lost", "timer": kind, "lost_on": lost_on, "idle_timeout_shorter_than_timer": I < dur,
-                       **({"variant": case["variant"]} if case.get("variant") else {})},
+                       **({"variant": case["variant"]} if case.get("variant") else {}), **({"another_unfinished_run": True} if blocker else {})},
                       f"{kind}={dur}s, idle_timeout={I}s, restarts={restarts}: the timer never took effect; handler after {scn['end']} virtual s is {final}; "
                       f"releases {[(r['t'], r.get('wakeups')) for r in obs['releases']]}", wit)
     acc.sample({"seed": case["seed"], "kind": kind, "dur": dur, "idle_timeout": I, "restarts": restarts, "releases": [r["t"] for r in obs["releases"]], "final": final})
